@@ -270,6 +270,61 @@ def feasible_paths_exist(
     return None
 
 
+def facts_at(
+    g: CFG,
+    nid: int,
+    classify: Callable[[ast.AST], str | None],
+    labels: set[str] = NORMAL,
+    kills: Callable[[int], set[str]] | None = None,
+    gens: Callable[[int], dict[str, bool]] | None = None,
+    limit: int = 200000,
+) -> dict[str, bool]:
+    """Facts that hold on *every* feasible path from the entry to `nid` (intersection over the fact sets with which the node
+    is reached): the branch conditions that dominate it, as far as `classify` names them."""
+    start = (g.entry, frozenset((gens(g.entry) if gens else {}).items()))
+    seen = {start}
+    dq = deque([start])
+    arriving: list[frozenset] = []
+    steps = 0
+    while dq:
+        n, facts = dq.popleft()
+        steps += 1
+        if steps > limit:
+            raise RuntimeError("facts_at: state limit exceeded")
+        if n == nid:
+            arriving.append(facts)
+            continue
+        fd = dict(facts)
+        for e in g.out[n]:
+            if e.label not in labels:
+                continue
+            for alt in cond_fact_alternatives(e.cond, classify):
+                nf = dict(fd)
+                ok = True
+                for k, v in alt:
+                    if k in nf and nf[k] != v:
+                        ok = False
+                        break
+                    nf[k] = v
+                if not ok:
+                    continue
+                if kills is not None:
+                    for k in kills(e.dst):
+                        nf.pop(k, None)
+                if gens is not None:
+                    nf.update(gens(e.dst))
+                st = (e.dst, frozenset(nf.items()))
+                if st not in seen:
+                    seen.add(st)
+                    dq.append(st)
+    if not arriving:
+        return {}
+    common = set(arriving[0])
+    for a in arriving[1:]:
+        common &= set(a)
+    return dict(common)
+
+
 def const_bool_gens(g: CFG) -> Callable[[int], dict[str, bool]]:
     """Facts generated by `name = True/False` assignments (keyed by the name)."""
 
